@@ -8,8 +8,9 @@ RULE = ("generated syntactically valid files: interleaved/repeated sections, lab
         "structured signature field, plus len(db); non-trivial = at least one record loaded")
 RULE += ("; lines end in \\n, \\r\\n or a lone \\r (the last possibly unterminated) and carry the other ASCII characters str.strip() removes "
          "(\\x0b \\x0c \\x1c-\\x1f) around the line and around '='; comment lines carry non-ASCII text incl. U+0085/U+2028/U+2029; a quarter of "
-         "the loads go into a Database object that already holds another file")
-ASSUMPTIONS = ["non-ASCII characters only inside comment lines (the model reads UTF-8 bytes); a 9th colon field / 5th label part is silently "
+         "the loads go into a Database object that already holds another file, half of those by editing the file in place and loading the same path again; "
+         "label names / flavours, sys entries and HTTP software carry non-ASCII characters")
+ASSUMPTIONS = ["non-ASCII characters only in comment lines and at the end of label / sys / HTTP-software texts, and never Unicode white space there (the model reads UTF-8 bytes); a 9th colon field / 5th label part is silently "
                "dropped (as the code does)"]
 EXHAUSTIVE = {}
 
@@ -21,8 +22,18 @@ XCOMMENTS = ["; page\x0cbreak", ";\x0c", "; caf\u00e9 \u2028 sep", "; nel \x85 h
 def decorate(R, lines):
     """Whitespace str.strip() removes that is not a line end for text-mode reading; must leave the file valid."""
     out = []
+    sec = ""
     for l in lines:
         k = D.line_kind(l)
+        if k == "section":
+            sec = l.strip()
+        # non-ASCII text where the grammar lets any character through: label names / flavours, sys entries, HTTP software
+        if k == "label" and R.random() < 0.3:
+            l = l.rstrip() + R.choice(["\u00e9", "\u00df\u65e5\u672c", "\u00fc-\u0416"])
+        elif k == "sys" and R.random() < 0.3:
+            l = l.rstrip() + R.choice([",B\u00fcro", ",\u65e5\u672c", "\u00e9"])
+        elif k == "sig" and sec.startswith("[http") and R.random() < 0.2 and l.count(":") == 3:
+            l = l.rstrip() + R.choice(["\u00e9", "M\u00f6z"])
         if k == "skip":
             if l.strip() == "" and l != "" and R.random() < 0.5:
                 l = "".join(R.choice(XWS) for _ in range(R.randint(1, 3)))
@@ -52,6 +63,7 @@ def generate(R, tier):
                 c["terms"][-1] = ""
         if R.random() < 0.25:
             c["pre"] = D.valid_file(R, small=True)
+            c["same_path"] = R.random() < 0.5        # the file is edited in place and loaded again by the same Database object
         yield c
     yield {"stream": "shipped", "shipped": True, "lines": []}
 
@@ -101,6 +113,20 @@ def impl_init():
 
     def impl(c):
         db = None
+        if c.get("pre") is not None and c.get("same_path"):
+            import os
+            from pyp0f.database import Database
+            path = os.path.join(U._TMP, "c09-same-%d.fp" % os.getpid())
+            os.makedirs(U._TMP, exist_ok=True)
+            db = Database()
+            try:
+                for text in ("\n".join(c["pre"]) + "\n", text_of(c)):
+                    with open(path, "w", encoding="utf-8", newline="") as f:
+                        f.write(text)
+                    db.load(path)
+            finally:
+                os.unlink(path)
+            return {"ok": U.dump_db(db)}
         if c.get("pre") is not None:
             db = U.load_db("\n".join(c["pre"]) + "\n")
         db = U.load_db(text_of(c), db)
